@@ -117,6 +117,15 @@ def make_search(mido, base, depth):
                          (('type', 'nosuchtype'),)]
         if bad is not None:
             inv_overrides.append(((first, bad),))
+        # an override that compares EQUAL to the current value but is of the
+        # wrong type (60.0 for 60): a fresh construction would reject it
+        cur = vars(factory()).get(first) if first else None
+        if isinstance(cur, int) and not isinstance(cur, bool) \
+                and first != 'frame_rate':     # 25.0 is a legal frame rate
+            inv_overrides.append(((first, float(cur)),))
+        elif isinstance(cur, tuple) and cur and all(
+                isinstance(x, int) for x in cur) and label.startswith('Message'):
+            inv_overrides.append(((first, [float(x) for x in cur]),))
     sets = [('time', 4, True)]
     if first is not None:
         sets.append((first, alt, True))
